@@ -439,15 +439,21 @@ def run(ctx, only=None):
                 names[len(trees)] = fn
                 trees.append((tup(c["tree"]), c.get("flags", "a")))
     ncorpus = len(trees)
-    n = (3000 if quick else 40000) * (3 if broken else 1)
-    opmix = {}
-    for i in range(n):
-        g = gen.Gen(ctx.rng.fork("tree%d" % i), size=ctx.rng.range(3, 18), maxdepth=ctx.rng.range(2, 5))
+    # two generator profiles (harness/C05/gen.py): "uniform" = every production / operand anywhere; "driver" = the same
+    # productions weighted like a coroutine workload (create, then drive the same fiber repeatedly, bodies mostly suspend,
+    # masks drawn bit by bit) - the second one reaches the multi-step transitions (re-resume after cancel, re-entry
+    # through a suspended child chain, a signal raised after an absorbed cancel) that the first one hardly ever composes
+    n = (2000 if quick else 25000) * (3 if broken else 1)
+    nd = (3000 if quick else 25000) * (3 if broken else 1)
+    opmix, opmix_d = {}, {}
+    for i in range(n + nd):
+        drv = i >= n
+        g = gen.Gen(ctx.rng.fork("tree%d" % i), size=ctx.rng.range(3, 18), maxdepth=ctx.rng.range(2, 5), profile="driver" if drv else "uniform")
         t, fl = g.tree()
         trees.append((t, fl))
         for k, v in g.stats.items():
-            opmix[k] = opmix.get(k, 0) + v
-    ctx.say("%d trees (%d corpus)" % (len(trees), ncorpus))
+            (opmix_d if drv else opmix)[k] = (opmix_d if drv else opmix).get(k, 0) + v
+    ctx.say("%d trees (%d corpus, %d uniform, %d driver profile)" % (len(trees), ncorpus, n, nd))
     lines = [gen.model_line(t, fl) for t, fl in trees]
     model_out = ctx.model(lines, exe=exe) if exe else None
     halts = {}
@@ -568,6 +574,21 @@ def run(ctx, only=None):
             rep.update({"janet": gen.janet_tree(i, t, fl), "model_line": lines[i], "impl": split_line(impl[i])[0], "model": split_line(model_out[i])[0]})
         ctx.violation("broken:" + broken[0][:80], rep, found=False, what="no longer shown to hold: " + "; ".join(broken)[:700])
     nev = sum(l.count(";") + 1 for l in impl.values())
+    # input distribution actually EXECUTED (not just generated): share of a tree's labelled instructions that ran, and how the
+    # tree's root ended, per profile
+    exec_frac = {}
+    for prof, lo, hi in (("uniform", ncorpus, ncorpus + n), ("driver", ncorpus + n, ncorpus + n + nd)):
+        fr, ends, cnt = 0.0, {}, 0
+        for i in range(lo, hi):
+            if i not in impl:
+                continue
+            body, _, fin = impl[i].partition(" | ")
+            labs = set(e.split(":")[0] for e in body.split(";") if e and not e.startswith("@"))
+            fr += len(labs) / max(1, len(gen.site_info(trees[i][0])["op"]))
+            k = (fin.split(" ") + ["?", "?"])[1]
+            ends[k] = ends.get(k, 0) + 1
+            cnt += 1
+        exec_frac[prof] = {"trees": cnt, "mean_fraction_of_labels_executed": round(fr / max(1, cnt), 3), "root_final_signal": ends}
     samples = [gen.janet_tree(i, t, fl)[:400] for i, t, fl in runnable[ncorpus:ncorpus + 2]]
     cov = {
         "evaluations": len(impl),
@@ -580,7 +601,8 @@ def run(ctx, only=None):
         "guard_pass": {k: v for k, v in gcov.items() if k != "guard_first_diff"},
         "task_pass": {k: v for k, v in scov.items() if k != "sched_first_diff"},
         "named_pass": ncov,
-        "oracle_violations": len(oracle_bad), "oracle_adjacency_hits_model_agrees": [(i, b[1][:200]) for i, b in unconfirmed[:10]], "oracle_checks": stats, "generator_op_mix": opmix,
+        "oracle_violations": len(oracle_bad), "oracle_adjacency_hits_model_agrees": [(i, b[1][:200]) for i, b in unconfirmed[:10]], "oracle_checks": stats, "generator_op_mix": opmix, "generator_op_mix_driver_profile": opmix_d,
+        "trees_uniform_profile": n, "trees_driver_profile": nd, "executed_label_fraction": exec_frac,
     }
     ctx.say("halts %r diffs %d oracle_bad %d stats %r" % (halts, len(diffs), len(oracle_bad), stats))
     return ctx.finish("proof", cov, assumptions=[
